@@ -87,7 +87,8 @@ def gen_case(rng):
         order.append(evs.pop(0))
 
     return {'pids': pids, 'tasks': tasks, 'events': order,
-            'foreign': rng.random() < 0.3}
+            'foreign': rng.random() < 0.3,
+            'resubmit': rng.random() < 0.4}
 
 
 # ------------------------------------------------------------------------------
@@ -137,6 +138,19 @@ def run_case(case, res):
         if task.state != st:
             res.inconc('could not drive %s to %s' % (t['uid'], st))
             return
+
+    # an application which resubmits: its task state callback submits a new
+    # task whenever one fails (the task manager's registry grows while the
+    # manager is busy failing the tasks of a dead pilot)
+    if case.get('resubmit'):
+        res.count('histories_with_resubmitting_callback')
+        counter = [0]
+        def resubmit(task, state):
+            if state == rps.FAILED:
+                counter[0] += 1
+                res.count('resubmissions')
+                make_task(tm, 'resub.%d' % counter[0])
+        tm.register_callback(resubmit)
 
     seq = list(case['events'])
     if foreign:
